@@ -19,15 +19,24 @@ MANIFEST = {
 STRATEGIES = ('sorted', 'max', 'naive', 'timesorted', 'bucketmax', 'random')
 INIT = [('m', 1, -1.0), ('n', 1, -2.0), ('n', 2, -3.0)]
 PROGRAMS = [
-  [('store', 'n', 3, 1.0), ('store', 'm', 2, 2.0), ('store', 'o', 1, 3.0)],
+  # (the third series has the EMPTY name: the pickle listener accepts it - only isinstance(metric, str) is checked - and the
+  # feeder stores it as received; a strategy's "nothing to hand out" sentinel must not be confused with it)
+  [('store', 'n', 3, 1.0), ('store', 'm', 2, 2.0), ('store', '', 1, 3.0)],
   [('store', 'm', 2, 1.0), ('store', 'm', 3, 2.0), ('store', 'n', 3, 3.0)],
 ]
+
+
+# graphite-web asks the cache query port about every series it renders, cached or not: a query for a series that holds
+# nothing must leave the drain strategies nothing to trip over
+QUERY_PROGRAM = [('query', 'zz'), ('store', 'm', 2, 1.0), ('bulk', ('yy', 'n')), ('store', 'n', 3, 3.0)]
 
 
 def jobs(ctx):
   out = []
   for strat in STRATEGIES:
     fb = 1 if strat == 'random' else 0
+    out.append(({'strategy': strat, 'lag': 0, 'max_cache': None, 'flow': False, 'init': INIT, 'reactor': QUERY_PROGRAM, 'writer': 3,
+                 'oracles': ('c02', 'c17'), 'see_query': True}, (ctx.pick(1, 2), fb)))
     for lag in ((0, 5) if strat == 'timesorted' else (0,)):
       for mc in (None, 3):
         for pi, prog in enumerate(PROGRAMS):
@@ -49,7 +58,7 @@ def jobs(ctx):
 def run(ctx):
   cacheh.run_jobs(ctx, jobs(ctx), 'C17')
   cacheseq.run(ctx, oracles=('c02', 'c17'), depth=ctx.pick(6, 8), strategies=STRATEGIES,
-               max_cache=[None, 2], flows=(True,), lags=(0, 5))
+               max_cache=[None, 2], flows=(True,), lags=(0, 5), metrics=('m', 'n', ''))
   ctx.add(bounds={'preemptions': ctx.pick(2, 3), 'sequential_depth': ctx.pick(6, 8), 'lag': [0, 5],
                   'max_cache': [None, 2, 3]})
 
